@@ -56,17 +56,38 @@ type c07World struct {
 }
 
 func c07Build(set []c07Route, userNotFound, withMW bool) *c07World {
+	return c07BuildL(set, userNotFound, withMW, false)
+}
+
+// c07BuildL: with late, the last route, the user not-found chain and the middleware are installed
+// only after the application has already served requests (the outcome must still be a function of
+// what is registered at the time of the request).
+func c07BuildL(set []c07Route, userNotFound, withMW, late bool) *c07World {
 	w := &c07World{f: flamego.NewWithLogger(io.Discard), set: set}
-	if withMW {
+	warm := func() {
+		for _, p := range []string{"/", "/a", "/a/z", "/zz", "/a/b/c", ""} {
+			for _, m := range []string{"GET", "POST", "BREW"} {
+				func() {
+					defer func() { _ = recover() }()
+					w.f.ServeHTTP(&c01Spy{hdr: http.Header{}}, newReq(m, p))
+				}()
+			}
+		}
+		w.mw, w.chain, w.params = 0, nil, nil
+	}
+	if withMW && !late {
 		w.f.Use(func() { w.mw++ })
 	}
-	if userNotFound {
+	if userNotFound && !late {
 		w.f.NotFound(func(c flamego.Context) {
 			w.chain = append(w.chain, "notfound")
 			c.ResponseWriter().WriteHeader(404)
 		})
 	}
 	for i := range set {
+		if late && i == len(set)-1 {
+			warm()
+		}
 		rt := set[i]
 		marker := func(c flamego.Context) {
 			w.chain = append(w.chain, "route:"+rt.Method+" "+rt.Text)
@@ -81,6 +102,21 @@ func c07Build(set []c07Route, userNotFound, withMW bool) *c07World {
 			h.Headers(rt.Hdr...)
 		}
 		w.refs = append(w.refs, ref.MustParse(rt.Text))
+	}
+	if late {
+		if len(set) == 0 {
+			warm()
+		}
+		if withMW {
+			w.f.Use(func() { w.mw++ })
+		}
+		if userNotFound {
+			w.f.NotFound(func(c flamego.Context) {
+				w.chain = append(w.chain, "notfound")
+				c.ResponseWriter().WriteHeader(404)
+			})
+		}
+		warm()
 	}
 	return w
 }
@@ -161,7 +197,7 @@ func c07Judge(m *ref.Matcher, w *c07World, userNF, withMW bool, method, path str
 	// the same calls must answer the same
 	for _, tw := range twins {
 		if o := tw.serve(method, path, hdr); o != o1 {
-			return fmt.Sprintf("two instances built by the same registrations answer differently: %+v vs %+v", o1, o), "instance-dependent", ""
+			return fmt.Sprintf("two instances with the same registrations (one of them configured partly after it had served requests) answer differently: %+v vs %+v", o1, o), "instance-dependent", ""
 		}
 	}
 	if o1.panicked != "" {
@@ -259,7 +295,7 @@ func c07Run(r *core.Run) {
 		for ji := w; ji < len(jobs); ji += nw {
 			j := jobs[ji]
 			world := c07Build(c07Sets[j.si], j.userNF, j.mw)
-			twins := []*c07World{c07Build(c07Sets[j.si], j.userNF, j.mw), c07Build(c07Sets[j.si], j.userNF, j.mw), c07Build(c07Sets[j.si], j.userNF, j.mw)}
+			twins := []*c07World{c07Build(c07Sets[j.si], j.userNF, j.mw), c07Build(c07Sets[j.si], j.userNF, j.mw), c07BuildL(c07Sets[j.si], j.userNF, j.mw, true)}
 			l.States++
 			hdrs := c07HdrSets[:1]
 			if len(c07Sets[j.si]) > 0 && c07HasHdr(c07Sets[j.si]) {
@@ -303,7 +339,7 @@ func c07Replay(raw json.RawMessage) (bool, string) {
 		return false, err.Error()
 	}
 	w := c07Build(c.Set, c.UserNotFound, c.Middleware)
-	twins := []*c07World{c07Build(c.Set, c.UserNotFound, c.Middleware), c07Build(c.Set, c.UserNotFound, c.Middleware), c07Build(c.Set, c.UserNotFound, c.Middleware)}
+	twins := []*c07World{c07Build(c.Set, c.UserNotFound, c.Middleware), c07Build(c.Set, c.UserNotFound, c.Middleware), c07BuildL(c.Set, c.UserNotFound, c.Middleware, true)}
 	bad, _, _ := c07Judge(ref.NewMatcher(), w, c.UserNotFound, c.Middleware, c.Method, string(path), c.Headers, twins...)
 	return bad != "", bad
 }
